@@ -102,6 +102,55 @@ func runC09(e *Env) {
 	}
 }
 
+// c09LaunchedLiteral: f is an unexported function that is only ever started by go statements of one function F, and the wait
+// table lists exactly one function literal of F that is not in the program any more; the key of that entry, else "".
+func c09LaunchedLiteral(e *Env, fns []*ssa.Function, f *ssa.Function) string {
+	if f.Parent() != nil || f.Object() == nil || f.Object().Exported() {
+		return ""
+	}
+	var launcher *ssa.Function
+	for _, g := range fns {
+		for _, h := range core.WithAnon(g) {
+			for _, b := range h.Blocks {
+				for _, in := range b.Instrs {
+					switch x := in.(type) {
+					case *ssa.Go:
+						if x.Common().StaticCallee() == f {
+							if launcher != nil && launcher != g {
+								return ""
+							}
+							launcher = g
+							continue
+						}
+					}
+					for _, op := range in.Operands(nil) {
+						if *op == ssa.Value(f) {
+							return "" // called or stored elsewhere: not only a goroutine body
+						}
+					}
+				}
+			}
+		}
+	}
+	if launcher == nil {
+		return ""
+	}
+	existing := map[string]bool{}
+	for _, g := range fns {
+		existing[core.FnName(g)] = true
+	}
+	key := ""
+	for k := range waitTable {
+		if strings.HasPrefix(k, core.FnName(launcher)+"$") && !existing[k] {
+			if key != "" {
+				return ""
+			}
+			key = k
+		}
+	}
+	return key
+}
+
 func c09Waits(e *Env) {
 	rule := "C09.R1"
 	seen := map[string]bool{}
@@ -127,6 +176,16 @@ func c09Waits(e *Env) {
 				continue
 			}
 			spec, listed := waitTable[name]
+			if !listed {
+				// a listed goroutine body that became a named unexported function: f is started only by go statements of one
+				// function F, and the table lists a function literal of F that no longer exists – the same wait class is
+				// required of f (the class test below is structural, so nothing is taken on trust)
+				if key := c09LaunchedLiteral(e, fns, f); key != "" {
+					spec, listed = waitTable[key], true
+					seen[key] = true
+					e.R.Notes = append(e.R.Notes, fmt.Sprintf("%s is the goroutine body listed as %s", name, key))
+				}
+			}
 			construct := name + ":" + w.Kind
 			if !listed {
 				// not in the table (new function, or a listed wait moved by a refactor): shapes that carry their own exits are
